@@ -278,8 +278,27 @@ def finish(pid, level, tier, seed, merged, wall_s, inconclusive_reasons, evidenc
     return 0
 
 
+def ensure_deps():
+    """The git-ignored .deps (icontract, deal from the offline wheelhouse) is normally created by MANIFEST.setup_cmd; a check started
+    in a fresh checkout without it runs the same setup once (offline; a failure only shows later as an import error = inconclusive)."""
+    if os.path.isdir(os.path.join(VERIF, ".deps", "icontract")):
+        return
+    import subprocess
+    lock = os.path.join(VERIF, ".deps.lock")
+    try:
+        import fcntl
+        with open(lock, "w") as fh:
+            fcntl.flock(fh, fcntl.LOCK_EX)
+            if not os.path.isdir(os.path.join(VERIF, ".deps", "icontract")):
+                subprocess.run([sys.executable, os.path.join(VERIF, "vlib", "setup.py")], stdout=subprocess.DEVNULL,
+                               stderr=subprocess.DEVNULL, timeout=900)
+    except Exception:
+        pass
+
+
 def setup_paths(repo):
     """Put the repository under test first on sys.path, plus /verif and its deps."""
+    ensure_deps()
     for p in (os.path.join(VERIF, ".deps"), VERIF, repo):
         while p in sys.path:
             sys.path.remove(p)
